@@ -120,30 +120,6 @@ def parseExt (toks : List String) : Option ExtGrammar :=
            user := us.map (·.2) }
   | _ => none
 
-/-! ### Well-formedness assumed by the sentence theorem (decidable, checked on every case) -/
-
-mutual
-/-- references in range, separators simple, `Prec` only where `top` allows it -/
-def wfExpr (nSyms : Nat) (nSets : Nat) : Expr → Bool
-  | .empty => true
-  | .ref s => s < nSyms
-  | .opt e => wfExpr nSyms nSets e
-  | .seq es => wfList nSyms nSets es
-  | .choice es => wfList nSyms nSets es
-  | .list _ _ e s => wfExpr nSyms nSets e && wfExpr nSyms nSets s
-  | .set i => i < nSets
-  | .lookahead _ => true
-  | .arrow _ e => wfExpr nSyms nSets e
-  | .assign _ e => wfExpr nSyms nSets e
-  | .append _ e => wfExpr nSyms nSets e
-  | .prec _ _ => false
-  | .command _ => true
-  | .marker _ => true
-def wfList (nSyms : Nat) (nSets : Nat) : List Expr → Bool
-  | [] => true
-  | e :: es => wfExpr nSyms nSets e && wfList nSyms nSets es
-end
-
 /-! ### Bounded evaluation of the denotation -/
 
 structure EvalCtx where
